@@ -351,7 +351,7 @@ func c04Notes(rec *evid.Rec) {
 func TestC04_Verify(t *testing.T) {
 	rec := evid.For("C04")
 	c04Notes(rec)
-	pbt.Check(t, rec, "verify", evid.Pick(20000, 300000), func(rt *rapid.T) (any, error) {
+	pbt.Check(t, rec, "verify", evid.Pick(40000, 300000), func(rt *rapid.T) (any, error) {
 		c, nt := genC04Verify(rt)
 		rec.Case("verify:"+c.Variant, evid.NewH().Str(c.Raw).Str(c.Key).Sum(), nt, func() any { return c })
 
